@@ -32,12 +32,12 @@ theorem Part.nil : Part key PA PI ([] : Tbl κ α) [] :=
 theorem Part.notI_of_getA (h : Part key PA PI A I) {k : κ} {v : α} (hg : A.get k = some v) : I.has k = false := by
   cases hh : I.has k with
   | false => rfl
-  | true => exact absurd ⟨Tbl.has_of_get hg, hh⟩ (h.x k)
+  | true => exact absurd ⟨Tbl.has_of_get_A hg, hh⟩ (h.x k)
 
 theorem Part.notA_of_getI (h : Part key PA PI A I) {k : κ} {v : α} (hg : I.get k = some v) : A.has k = false := by
   cases hh : A.has k with
   | false => rfl
-  | true => exact absurd ⟨hh, Tbl.has_of_get hg⟩ (h.x k)
+  | true => exact absurd ⟨hh, Tbl.has_of_get_A hg⟩ (h.x k)
 
 /-- move / write a record into the inactive partition -/
 theorem Part.toI (h : Part key PA PI A I) {k k' : κ} {v : α} (hk : key v = k') (he : k' = k) (hv : PI v) :
@@ -45,7 +45,7 @@ theorem Part.toI (h : Part key PA PI A I) {k k' : κ} {v : α} (hk : key v = k')
   subst he
   refine ⟨h.a.erase, h.i.set ⟨hk, hv⟩, ?_⟩
   rintro j ⟨h1, h2⟩
-  rw [Tbl.has_erase_iff] at h1; rw [Tbl.has_set_iff] at h2
+  rw [Tbl.has_erase_iff_A] at h1; rw [Tbl.has_set_iff_A] at h2
   rcases h2 with e | h2
   · exact h1.1 e
   · exact h.x j ⟨h1.2, h2⟩
@@ -56,7 +56,7 @@ theorem Part.toA (h : Part key PA PI A I) {k k' : κ} {v : α} (hk : key v = k')
   subst he
   refine ⟨h.a.set ⟨hk, hv⟩, h.i.erase, ?_⟩
   rintro j ⟨h1, h2⟩
-  rw [Tbl.has_erase_iff] at h2; rw [Tbl.has_set_iff] at h1
+  rw [Tbl.has_erase_iff_A] at h2; rw [Tbl.has_set_iff_A] at h1
   rcases h1 with e | h1
   · exact h2.1 e
   · exact h.x j ⟨h1, h2.2⟩
@@ -65,7 +65,7 @@ theorem Part.setA (h : Part key PA PI A I) {k : κ} {v : α} (hk : key v = k) (h
     Part key PA PI (A.set k v) I := by
   refine ⟨h.a.set ⟨hk, hv⟩, h.i, ?_⟩
   rintro j ⟨h1, h2⟩
-  rw [Tbl.has_set_iff] at h1
+  rw [Tbl.has_set_iff_A] at h1
   rcases h1 with e | h1
   · subst e; rw [hn] at h2; contradiction
   · exact h.x j ⟨h1, h2⟩
@@ -74,19 +74,19 @@ theorem Part.setI (h : Part key PA PI A I) {k : κ} {v : α} (hk : key v = k) (h
     Part key PA PI A (I.set k v) := by
   refine ⟨h.a, h.i.set ⟨hk, hv⟩, ?_⟩
   rintro j ⟨h1, h2⟩
-  rw [Tbl.has_set_iff] at h2
+  rw [Tbl.has_set_iff_A] at h2
   rcases h2 with e | h2
   · subst e; rw [hn] at h1; contradiction
   · exact h.x j ⟨h1, h2⟩
 
 theorem Part.eraseA (h : Part key PA PI A I) (k : κ) : Part key PA PI (A.erase k) I :=
-  ⟨h.a.erase, h.i, fun j ⟨h1, h2⟩ => h.x j ⟨((Tbl.has_erase_iff _ _ _).mp h1).2, h2⟩⟩
+  ⟨h.a.erase, h.i, fun j ⟨h1, h2⟩ => h.x j ⟨((Tbl.has_erase_iff_A _ _ _).mp h1).2, h2⟩⟩
 
 theorem Part.eraseI (h : Part key PA PI A I) (k : κ) : Part key PA PI A (I.erase k) :=
-  ⟨h.a, h.i.erase, fun j ⟨h1, h2⟩ => h.x j ⟨h1, ((Tbl.has_erase_iff _ _ _).mp h2).2⟩⟩
+  ⟨h.a, h.i.erase, fun j ⟨h1, h2⟩ => h.x j ⟨h1, ((Tbl.has_erase_iff_A _ _ _).mp h2).2⟩⟩
 
 theorem Tbl.has_erase_self (t : Tbl κ α) (k : κ) : (Tbl.erase t k).has k = false := by
-  rw [Tbl.has_erase]; simp
+  rw [Tbl.has_erase_A]; simp
 
 end part
 
@@ -385,7 +385,7 @@ theorem provRegister_rec {s s' : State} {frm : Addr} {n i w d : Bytes} (h : prov
     rw [show s1.provActive = s.provActive from congrArg NView.provActive e1]; exact (hasProvider_false hno).1
   exact i1.of_prov rfl rfl rfl rfl (i1.provPart.setI rfl rfl hA)
 
-theorem provUpdated_addr (p : Provider) (n i w d : Bytes) (st : Status) (now : Time) :
+theorem provUpdated_addr_A (p : Provider) (n i w d : Bytes) (st : Status) (now : Time) :
     (provUpdated p n i w d st now).addr = p.addr := by
   unfold provUpdated; simp only []; split <;> split <;> rfl
 
@@ -400,7 +400,7 @@ theorem provUpdate_rec {s s' : State} {frm : Addr} {n i w d : Bytes} {st : Statu
   obtain ⟨p, hp, s3, h3, rfl⟩ := h
   have hP := hi.provPart
   have hst' := provUpdated_status p n i w d st s.time
-  have hk := provUpdated_addr p n i w d st s.time
+  have hk := provUpdated_addr_A p n i w d st s.time
   rcases getProvider_mem hp with hg | hg
   · have hpa := hP.a frm p hg
     have hps : p.status = .StatusActive := hpa.2
